@@ -17,6 +17,13 @@ Print Assumptions C03_defaults.
      syntax, printer, semantics         spec/NoteSem.v        (cmd, pprog, sem / denote_prog, perf)
      tokens_of / top_tokens             proofs/NoteSimDefs.v  the tokens the model lexer produces for pprog p
                                                               (every lex call opens with TLineNo; so do the children of Sub / tuplets)
+     COnce marks <note>                 spec/NoteSem.v        octave-once marks (back-quote = +1, double quote = -1) written directly in front of a
+                                                              lettered note: the note sounds in the octave the marks lead to (each mark one octave, kept
+                                                              within 0..10), afterwards the octave is what it was before the marks.  Two or more tokens.
+                                                              May stand wherever a command may stand: top level, loops, Sub blocks, tuplets (the marks
+                                                              take no share of a tuplet).  NOT modelled: marks inside a chord, before a rest / an n-note /
+                                                              any other command (the code keeps the mark pending until the next lettered note; a track
+                                                              change settles it)
      wf_cmd / wf_prog                   proofs/NoteSimDefs.v  the hypotheses: explicit gate <> 0, velocity >= 0, octave >= 0,
                                                               timing <> isize::MIN, an omitted velocity is not followed by a timing / octave
                                                               field, well-formed length expressions, loop counts >= 1, track numbers 0..999,
@@ -86,9 +93,45 @@ Theorem C03_step_note : forall base acc natural len gate vel timing oct,
              R s' (NoteSem.sem (S f) (CNote base acc natural len gate vel timing oct) q).
 Proof. exact step_note. Qed.
 
+Definition ex_n (b : Z) : cmd := CNote b 0 false None None None None None.
+Definition ex0 : cmd := ex_n 0.
+(* octave-once marks and their note, from ANY pair of related states: machine and specification agree, the octave is
+   afterwards what it was before the marks (on both sides), and the one note added sounds in the octave the marks lead to -
+   every mark moves one octave and stays within 0..10, so a mark at the limit changes nothing and takes nothing back
+   (the defect repaired by /repo 51012d5: the octave was clamped, but the full mark was taken back after the note) *)
+Theorem C03_octave_once : forall marks base acc natural len gate vel timing oct,
+  wf_cmd (COnce marks base acc natural len gate vel timing oct) = true ->
+  forall (d steps : nat) (s : song) (q : perf), (S (length marks) < steps)%nat -> R s q ->
+  let c := COnce marks base acc natural len gate vel timing oct in
+  exists s', exec_f (S (S d)) steps (tok_cmd c) (Ok s) = Ok s' /\ R s' (NoteSem.sem 1 c q) /\
+    tr_octave (cur_track s') = tr_octave (cur_track s) /\
+    t_oct (cur (NoteSem.sem 1 c q)) = t_oct (cur q) /\
+    exists n, t_notes (cur (NoteSem.sem 1 c q)) = t_notes (cur q) ++ [n] /\
+      n_key n = clampz 0 127 ((match oct with Some o => o | None => once_oct marks (t_oct (cur q)) end) * 12 + base + acc
+                              + (if natural then 0 else keyflag_of q base) + p_keyshift q + t_key (cur q)).
+Proof. exact once_simulation. Qed.
+(* the octave the marks lead to, at the limits and in the middle *)
+Example C03_once_oct_cases :
+  once_oct [1] 5 = 6 /\ once_oct [-1] 5 = 4 /\ once_oct [1; 1] 5 = 7 /\ once_oct [1] 10 = 10 /\ once_oct [-1] 0 = 0 /\
+  once_oct [1; 1] 9 = 10 /\ once_oct [1; -1] 10 = 9.
+Proof. repeat split; reflexivity. Qed.
+(* on the machine: o10 `c c, then o0 and a lowered c and c, then o5 `c, a lowered c, ``c and c - the note after a marked note is
+   back in the octave before the mark *)
+Example C03_octave_once_example :
+  let p := [COct 10; COnce [1] 0 0 false None None None None None; ex0; COct 0; COnce [-1] 0 0 false None None None None None; ex0;
+            COct 5; COnce [1] 0 0 false None None None None None; COnce [-1] 0 0 false None None None None None;
+            COnce [1; 1] 0 0 false None None None None None; ex0] in
+  wf_prog p = true /\ lex_of_prog p = Ok (top_tokens p) /\
+  (exists s, exec_f (S (prog_depth p)) (fuel_of p) (top_tokens p) (Ok song_new) = Ok s /\
+     map (fun tr => map (fun n => n_key n) (notes_of (tr_events tr))) (s_tracks s) = [[120; 120; 0; 0; 72; 48; 84; 60]]) /\
+  map (fun t => map (fun n => n_key n) (t_notes t)) (p_tracks (denote_prog p)) = [[120; 120; 0; 0; 72; 48; 84; 60]].
+Proof.
+  split; [vm_compute; reflexivity|]. split; [vm_compute; reflexivity|].
+  split; [eexists; split; vm_compute; reflexivity|vm_compute; reflexivity].
+Qed.
+
 (* ---- non-vacuity: "[2 c ) : e+8,50,90 > ] 'c > e g '2,80 TR(2) KF+(f) {g r n60, [ f ] }4.^16 Sub{a2,,70,3,3 } l8 b"
         a loop with ':', a chord with octave steps, and on a third track a tuplet containing a loop, a Sub, a key signature ---- *)
-Definition ex_n (b : Z) : cmd := CNote b 0 false None None None None None.
 Definition ex_l8 : olen := Some (mkAtom false false [8] 0, []).
 Definition ex_l2 : olen := Some (mkAtom false false [2] 0, []).
 Definition ex_l4d : olen := Some (mkAtom false false [4] 1, [(true, mkAtom false false [1;6] 0)]).
@@ -177,3 +220,4 @@ Print Assumptions C03_initial.
 Print Assumptions C03_notes.
 Print Assumptions C03_run_source.
 Print Assumptions C03_step_note.
+Print Assumptions C03_octave_once.
